@@ -63,6 +63,8 @@ add("C02",
 
 # ---------------------------------------------------------------- C04
 add("C04",
+    V("decades-folded-only-when-truthy", "C04", [("dateparser/freshness_date_parser.py", '        if "decades" in kwargs:\n', '        if kwargs.get("decades"):\n')], "fire", "C04.R4",
+      note="seeded change C04-6: '0 decades ago' hands decades=0.0 to relativedelta -> TypeError"),
     V("decade-missing-from-future-words", "C04", [(LOCALE, '            "decade",\n            "year",\n            "month",\n            "week",\n            "day",\n            "hour",', '            "year",\n            "month",\n            "week",\n            "day",\n            "hour",')], "fire", "C04.R1"),
     V("decade-factor", "C04", [(FRESH, 'kwargs["years"] = 10 * kwargs["decades"]', 'kwargs["years"] = 100 * kwargs["decades"]')], "fire", "C04.R4"),
     V("decade-drops-years", "C04", [(FRESH, '10 * kwargs["decades"] + kwargs.get("years", 0)', '10 * kwargs["decades"]')], "fire", "C04.R4"),
@@ -228,6 +230,9 @@ add("C20",
 
 # ---------------------------------------------------------------- C08
 add("C08",
+    V("reference-normalised-to-utc", "C08", [(PARSER, "        if not self.now:\n            self.now = datetime.now(tz=timezone.utc).replace(tzinfo=None)\n\n    def _get_datetime_obj_params",
+        "        if not self.now:\n            self.now = datetime.now(tz=timezone.utc).replace(tzinfo=None)\n        elif self.now.tzinfo is not None:\n            self.now = self.now.astimezone(timezone.utc).replace(tzinfo=None)\n\n    def _get_datetime_obj_params")], "fire", "C08.R7",
+      note="seeded change C08-6: with an aware RELATIVE_BASE the 'current' day is the UTC day, the 'current' month the caller's"),
     V("leftover-number-without-token-record", "C08", [(PARSER, "                    params.update({attr: int(token)})\n                    setattr(self, \"_token_%s\" % attr, token)\n                    setattr(self, attr, int(token))\n",
                                                         "                    params.update({attr: int(token)})\n                    setattr(self, attr, int(token))\n")], "fire", "C08.R6",
       note="seeded change C05-3: '17 mars 2015' in a year-first locale gets the reference day"),
